@@ -316,6 +316,17 @@ pub fn check_case(c: &PackCase, l: &mut Local) -> Result<(), String> {
         let far = tick_array_pda(&pk, array_start(MAX_TICK, h.spec.tick_spacing));
         let fixed_slots = if arr.contains(&far) { [arr[0], arr[0], arr[0]] } else { [far, far, far] };
         cmp(&format!("{name}, arrays passed as supplemental accounts"), &run_swap(h, h.traders[0], &sp, fixed_slots, &permute(arr, c.order_seed.wrapping_add(1)), true))?;
+        // extra supplemental arrays beyond the window (the array behind the start and the fourth array ahead) change nothing
+        let starts = h.w.swap_array_starts(h.pool, c.a_to_b);
+        if let (Some(first), Some(last)) = (starts.first(), starts.last()) {
+            let n = 88 * h.spec.tick_spacing as i32;
+            let (behind, ahead) = if c.a_to_b { (first + n, last - n) } else { (first - n, last + n) };
+            let extra: Vec<Pubkey> = [behind, ahead].iter().filter(|s| **s >= array_start(MIN_TICK, h.spec.tick_spacing) && **s <= MAX_TICK).map(|s| tick_array_pda(&pk, *s)).filter(|k| !arr.contains(k)).collect();
+            if !extra.is_empty() {
+                cmp(&format!("{name}, extra supplemental arrays outside the window"), &run_swap(h, h.traders[0], &sp, arr, &extra, true))?;
+                packagings += 1;
+            }
+        }
         packagings += 2;
     }
     // reduced supply: fails, or equals the full outcome
